@@ -158,6 +158,12 @@ func (r Registry) resolveImportConflict(a, b *Package, lvl int) {
 			r.resolveImportConflict(p, conflict, lvl+1)
 			continue
 		}
+		// The package being added (a) is not registered yet, so the search
+		// can not see an alias it was given in a nested resolution just before.
+		if i == 1 && other.Alias == name {
+			r.resolveImportConflict(p, other, lvl+1)
+			continue
+		}
 
 		p.Alias = name
 	}
